@@ -1202,6 +1202,7 @@ static void c18_build_and_free(void) {
   /* phase 1: build up */
   if (!strcmp(pattern, "pages")) { alloc_many(200, 8000, 8192, 0); alloc_many(40, 30000, 32768, 0); }
   else if (!strcmp(pattern, "segments")) { alloc_many(100, 900000, 1048576, 0); }
+  else if (!strcmp(pattern, "huge")) { alloc_many(5, (size_t)17 << 20, (size_t)40 << 20, 0); }      /* single-block segments */
   else { alloc_many(150, 8000, 8192, 0); alloc_many(70, 900000, 1048576, 0); alloc_many(100, 100, 1000, 0); }
   ev_areas();
   vf_clock_advance(3);
@@ -1211,7 +1212,8 @@ static void c18_build_and_free(void) {
   for (int s = 0; s < MAXSLOTS; s++) if (slots[s].p && slots[s].id > base) {
     int keep = 0; int rid = slots[s].id - base;
     if (keep_every && !strcmp(pattern, "pages")) keep = (rid > 150 && rid <= 200) || (rid % 40 == 0);   /* free whole pages, keep the segment alive */
-    if (keep_every && !strcmp(pattern, "segments")) keep = (rid > 92);                                   /* whole segments go back, the last stays */
+    if (keep_every && !strcmp(pattern, "segments")) keep = (rid > 92);
+    if (keep_every && !strcmp(pattern, "huge")) keep = (rid > 4);                                   /* whole segments go back, the last stays */
     if (!keep) tofree[nf++] = s;
   }
   /* free in allocation order, so that the blocks of one page are freed together */
